@@ -28,6 +28,7 @@ EXTENDS FluxLatticeOps, Json
 CONSTANTS Prop,        \* "C04" | "C05" | "C19" | "C17": the step vocabulary / script
           Mode, NMets, NRxns, BPal, OPal, NWalks, Depth, Seed, Emit, Bug,
           Canon,       \* family: only non-decreasing (shape, bound) assignments (reaction order symmetry)
+          Topo,        \* family: "all" = every shape assignment; or a named fixed topology (every bound assignment)
           Thm          \* which design theorems the invariant evaluates: subset of {"dual","range","loop","blocked"}
 
 VARIABLES M, M0, hist, rng, walk, fva
@@ -41,6 +42,7 @@ BPairs ==
     [] BPal = "f4" -> <<<<0, 2>>, <<-2, 2>>, <<1, 2>>, <<-1, 0>>>>
     [] BPal = "z5" -> <<<<0, 2>>, <<-2, 2>>, <<0, 0>>, <<-2, 0>>, <<-1, 1>>>>                           \* contain 0
     [] BPal = "z3" -> <<<<0, 2>>, <<-2, 2>>, <<-1, 0>>>>
+    [] BPal = "f3" -> <<<<0, 2>>, <<-2, 2>>, <<1, 2>>>>
     [] BPal = "i9" -> <<<<0, 2>>, <<-2, 2>>, <<0, 0>>, <<1, 2>>, <<-2, -1>>, <<0, Inf>>, <<NegInf, Inf>>, <<1, 1>>, <<NegInf, 1>>>>
 \* column shapes: <<a, b>> consumes metabolite a and produces metabolite b (0 = nothing: boundary)
 Shapes(nm) == SelectSeq([i \in 1..((nm + 1) * (nm + 1)) |-> <<(i - 1) \div (nm + 1), (i - 1) % (nm + 1)>>],
@@ -77,12 +79,16 @@ RandInstance(r) ==
       nm == IF NMets <= 2 THEN NMets ELSE (NMets - 1) + (d[1] % 2)
       nr == IF NRxns <= 3 THEN NRxns ELSE (NRxns - 2) + (d[2] % 3)
       sh == Shapes(nm)
-      \* the first reactions form an import -> chain -> export backbone half of the time,
-      \* so that feasible, non-trivial instances are frequent
-      backbone == d[3] % 2 = 0
-      shapes == [k \in 1..nr |-> IF backbone /\ k = 1 THEN <<0, 1>>
-                                 ELSE IF backbone /\ k = 2 THEN <<1, nm>>
-                                 ELSE IF backbone /\ k = 3 THEN <<nm, 0>>
+      \* backbones make feasible, non-trivial instances frequent: a quarter of the instances start
+      \* with import -> chain -> export, a quarter with import -> 2-cycle -> export; the rest is free
+      bb == d[3] % 4
+      shapes == [k \in 1..nr |-> IF bb = 0 /\ k = 1 THEN <<0, 1>>
+                                 ELSE IF bb = 0 /\ k = 2 THEN <<1, nm>>
+                                 ELSE IF bb = 0 /\ k = 3 THEN <<nm, 0>>
+                                 ELSE IF bb = 1 /\ k = 1 THEN <<0, 1>>
+                                 ELSE IF bb = 1 /\ k = 2 THEN <<1, nm>>
+                                 ELSE IF bb = 1 /\ k = 3 THEN <<nm, 1>>
+                                 ELSE IF bb = 1 /\ k = 4 THEN <<nm, 0>>
                                  ELSE Pick(sh, d[6 + k])]
       bounds == [k \in 1..nr |-> Pick(BPairs, d[6 + NRxns + k])]
       r1 == (d[4] % nr) + 1
@@ -91,7 +97,13 @@ RandInstance(r) ==
       k2 == Pick(<<0, 0, 0, 1, -1, 2>>, d[6 + 2 * NRxns + 2])
       c == [k \in 1..nr |-> IF k = r1 THEN k1 ELSE IF k = r2 THEN k2 ELSE 0]
       dir == IF d[6] % 3 = 0 THEN "min" ELSE "max"
-  IN Build(nm, shapes, bounds, c, dir)
+      base == Build(nm, shapes, bounds, c, dir)
+      \* C04 only: one instance in eight leaves the unimodular family (one reaction gets the coefficients
+      \* doubled); there the lattice decides nothing and only the certificate clauses are checked
+      dbl == (d[6 + 3 * NRxns] % nr) + 1
+  IN IF Prop = "C04" /\ d[6 + 3 * NRxns - 1] % 8 = 0
+     THEN [base EXCEPT !.S[dbl] = [m \in 1..nm |-> 2 * base.S[dbl][m]]]
+     ELSE base
 
 \* ------------------------------------------------------------- steps
 \* edits (change M); every other step is a public call that must leave M alone
@@ -116,15 +128,17 @@ Script(m) ==
     [] Prop = "C05" ->
          IF ~HasOpt(m) THEN <<Fva(<<>>, "none", 1, 1, FALSE, 0)>>
          ELSE LET o == Opt(m) IN
-              <<Fva(<<>>, "none", 1, 1, FALSE, 0)>>
+              <<Fva(<<>>, "none", 1, 1, FALSE, 0), [op |-> "optimize", sense |-> "none", re |-> FALSE]>>
               \o (IF SignOK(m, o) THEN <<Fva(AllRxns(m), "obj", 0, 1, FALSE, 0)>> ELSE <<>>)
               \o (IF SignOK(m, o) /\ o # 0 /\ FracIsBound(m, 1, 2, o) THEN <<Fva(AllRxns(m), "id", 1, 2, FALSE, 0)>> ELSE <<>>)
               \o (IF AllFinite(m) /\ Cycles(m) # {} THEN <<Fva(<<>>, "none", 1, 1, TRUE, 0)>> ELSE <<>>)
               \o (IF AllFinite(m) THEN <<Fva(<<>>, "none", 1, 1, FALSE, 10)>> ELSE <<>>)
     [] Prop = "C19" ->
          <<[op |-> "blocked", rl |-> <<>>, by |-> "none", open |-> FALSE],
-           [op |-> "blocked", rl |-> AllRxns(m), by |-> "id", open |-> TRUE],
+           [op |-> "blocked", rl |-> AllRxns(m), by |-> "obj", open |-> TRUE],
            [op |-> "fastcc"]>>
+         \* identifiers instead of objects: a pinned witness per instance of the larger topologies
+         \o (IF NR(m) >= 4 THEN <<[op |-> "blocked", rl |-> AllRxns(m), by |-> "id", open |-> FALSE]>> ELSE <<>>)
     [] Prop = "C17" ->
          IF ~HasOpt(m) THEN <<>>
          ELSE <<[op |-> "loopless_solution", start |-> "opt", ar |-> 1, ad |-> "max"],
@@ -216,12 +230,20 @@ InvFvaProto ==
   /\ fva.pc = "zeroed" => fva.c = ZeroVec(M)
 
 \* ------------------------------------------------------------- behaviour
+\* fixed topologies with internal cycles
+\*   cyc2:  -> A,  A -> B,  B -> A,  B ->                   (2-cycle between import and export)
+\*   cyc3:  A -> B,  B -> C,  C -> A,  -> A,  B ->          (3-cycle; the first reaction lies inside it)
+TopoShapes ==
+  CASE Topo = "cyc2" -> <<<<0, 1>>, <<1, 2>>, <<2, 1>>, <<2, 0>>>>
+    [] Topo = "cyc3" -> <<<<1, 2>>, <<2, 3>>, <<3, 1>>, <<0, 1>>, <<2, 0>>>>
+    [] OTHER -> <<>>
 FamilyCfgs ==
-  LET ncol == Len(Shapes(NMets)) nbp == Len(BPairs) n == ncol * nbp IN
+  LET ncol == IF Topo = "all" THEN Len(Shapes(NMets)) ELSE 1 nbp == Len(BPairs) n == ncol * nbp IN
   {f \in [1..NRxns -> 0..(n - 1)] : Canon => \A k \in 1..(NRxns - 1) : f[k] <= f[k + 1]}
 FamilyInstance(f, c, dir) ==
   LET sh == Shapes(NMets) nbp == Len(BPairs) IN
-  Build(NMets, [k \in 1..NRxns |-> sh[(f[k] \div nbp) + 1]], [k \in 1..NRxns |-> BPairs[(f[k] % nbp) + 1]], c, dir)
+  Build(NMets, [k \in 1..NRxns |-> IF Topo = "all" THEN sh[(f[k] \div nbp) + 1] ELSE TopoShapes[k]],
+        [k \in 1..NRxns |-> BPairs[(f[k] % nbp) + 1]], c, dir)
 
 Init ==
   /\ hist = <<>>
@@ -271,14 +293,17 @@ ThmLoop ==
     /\ L # {} => \A r \in RIdx(M) : LET p == RangeIn(F, r) q == RangeIn(L, r) IN p[1] <= q[1] /\ q[2] <= p[2]
     \* removing one unit of a conforming cycle keeps the vector balanced, shrinks it and keeps
     \* the boundary fluxes (the lemma behind the irreducibility test of C17)
-    /\ \A v \in F : \A z \in Z : Conforms(z, v) =>
+    \* (negative control "loop_removal_ignores_sign": any cycle, conforming or not)
+    /\ \A v \in F : \A z \in Z : (Conforms(z, v) \/ Bug = "loop_removal_ignores_sign") =>
          LET w == [r \in RIdx(M) |-> v[r] - z[r]] IN
          /\ Balanced(M, w) /\ L1(w) < L1(v)
          /\ \A r \in Boundary(M) : w[r] = v[r]
     \* a vector without conforming cycle exists whenever the zero vector is feasible
     /\ (\A r \in RIdx(M) : M.lb[r] <= 0 /\ M.ub[r] >= 0) => L # {}
 ThmBlocked ==
-  InScope_C19(M) /\ AllFinite(M) =>
+  \* (negative control "scale_lemma_out_of_scope": without the premise that every interval contains 0
+  \*  the lemma is false -- the reason InScope_C19 exists)
+  (InScope_C19(M) \/ Bug = "scale_lemma_out_of_scope") /\ AllFinite(M) /\ BoundsOrdered(M) /\ Feasible(M) # {} =>
     LET B == Blocked(M) F == Feasible(M) IN
     /\ B = {r \in RIdx(M) : RangeIn(F, r) = <<0, 0>>}
     \* scale lemma: with 0 inside every interval only the zero pattern of the bounds matters
